@@ -77,8 +77,23 @@ def gen_cases(run, tier):
         nf = rng.choice([1, 1, 1, 1, 2, 2, 3, 4])
         fl = [(rng.choice('+-'), FL.gen_pattern(rng)) for _ in range(nf)]
         alpha = FL.alphabet_for([p for _, p in fl], rng, 4 if nf == 1 else 3)
-        paths = FL.strings_over(alpha, 4) + rng.sample(FL.PATHY, 6)
+        paths = FL.strings_over(alpha, 5 if (tier == 'thorough' and i % 4 == 0) else 4) + rng.sample(FL.PATHY, 6)
         cases.append(Case(fl, paths, 'subset-%d' % nf))
+    # character-level mutations of subset patterns (insert / delete / replace): mostly invalid or corner syntax; the model may
+    # answer "not in the subset" where the crate compiles, never the reverse, and where both compile the verdicts must agree
+    mut_alpha = list('abAB01/._- ()[]{}|*+?^$\\,:-idwsDWSnz')
+    for i in range(300 if tier == 'quick' else 4000):
+        t = FL.gen_pattern(rng).rs
+        for _ in range(rng.choice([1, 1, 2, 3])):
+            k, j = rng.random(), rng.randrange(len(t) + 1)
+            if k < 0.4:
+                t = t[:j] + rng.choice(mut_alpha) + t[j:]
+            elif k < 0.7:
+                t = t[:j] + t[j + 1:]
+            else:
+                t = t[:j] + rng.choice(mut_alpha) + t[j + 1:]
+        p = FL.Pat(t, None, set(t) - FL.META)
+        cases.append(Case([(rng.choice('+-'), p)], FL.strings_over(FL.alphabet_for([p], rng, 3), 4), 'mutated', subset=False))
     for i in range(n_pathy):
         nf = rng.choice([1, 1, 2, 3])
         fl = [(rng.choice('+-'), FL.gen_pathy_pattern(rng)) for _ in range(nf)]
